@@ -389,7 +389,10 @@ static void gen_text_line(rng_t *r)
     t[n] = 0;
     if (t[0] == ' ') t[0] = 'q';
     if (rng_chance(r, 1, 12)) { static const char *tricky[] = { "begin", "ending now", "bend", "e", "b", "End", "Begin c1", "endx" }; snprintf(t, sizeof(t), "%s", tricky[rng_below(r, 8)]); }
-    gb_add("%*s%s%*s\n", lead, "", t, trail, "");
+    if (rng_chance(r, 1, 6)) {
+        /* other kinds of surrounding whitespace: tabs, and a carriage return in front of the newline */
+        gb_add("%s%s%s\n", lead ? "\t " : "", t, trail == 1 ? "\r" : trail ? " \t" : "");
+    } else gb_add("%*s%s%*s\n", lead, "", t, trail, "");
 }
 static void gen_c09(plan_t *p, rng_t *r)
 {
